@@ -95,7 +95,10 @@ theorem progress {s : State} (h : Reachable Facts.waiterRereadsEntry s) (t : Tid
   | fetchDone e o => left; exact complete_enabled t e o hp
   | draining e o => left; exact drain_progress hi t e o hp
   | passUp => right; exact ⟨t, by simp [hp, inUpstream]⟩
-  | hitServe e r => left; exact ⟨.age t, rfl, by unfold Enabled; rw [hf]; simp [step, hp]⟩
+  | hitServe e r =>
+    by_cases hl : s.lock e = none
+    · left; exact ⟨.age t, rfl, by unfold Enabled; rw [hf]; simp [step, hp, hl]⟩
+    · left; exact lock_progress hi e hl
 
 /-- how far a request is from being answered -/
 def rank : Pc → Nat
@@ -250,11 +253,13 @@ theorem rank_decreases {s s' : State} (ev : Event)
   | age t =>
     simp only [step] at hs; split at hs
     · rename_i e r hp
-      simp only [Option.some.injEq] at hs; subst hs
-      refine ⟨fun u => Or.inl ?_, fun _ => ⟨t, by simp [hp, rank]⟩⟩
-      by_cases hu : u = t
-      · subst hu; simp [hp, rank]
-      · simp [upd_other _ _ _ _ hu]
+      split at hs
+      · simp only [Option.some.injEq] at hs; subst hs
+        refine ⟨fun u => Or.inl ?_, fun _ => ⟨t, by simp [hp, rank]⟩⟩
+        by_cases hu : u = t
+        · subst hu; simp [hp, rank]
+        · simp [upd_other _ _ _ _ hu]
+      · simp at hs
     · simp at hs
   | tick d =>
     simp only [step] at hs; split at hs
